@@ -93,11 +93,15 @@ type Env struct {
 	pSig       chan pSignal
 	pState     int
 	errMu      sync.Mutex
+	lastErrMu  sync.Mutex
+	lastErr    error
 	onErrors   []error
 	mergeOp    *verifMergeOp
 
 	// bookkeeping (batch indices, 1-based: batch i produced States[i])
 	top, mid, base, clean []int
+	lastBase              []int
+	OnRound               func() // called after every completed round
 	Persisted             int // States[Persisted] is what the lower level holds
 	Rounds                int // completed ok rounds
 	RoundErrs             int
@@ -210,10 +214,9 @@ func (e *Env) onError(err error) {
 	e.errMu.Lock()
 	e.onErrors = append(e.onErrors, err)
 	e.errMu.Unlock()
-	select {
-	case e.pSig <- pSignal{ok: false, err: err}:
-	default:
-	}
+	e.lastErrMu.Lock()
+	e.lastErr = err
+	e.lastErrMu.Unlock()
 	e.pErrGate.Enter("onerror")
 }
 
@@ -239,11 +242,22 @@ func (e *Env) openWith(cfg Config, controlled bool) {
 	e.Cfg = cfg
 	e.mGate = NewGate()
 	e.pErrGate = NewGate()
+	sig := make(chan pSignal, 4096)
+	e.pSig = sig
+	e.pErrGate.onParked = func(string) {
+		e.lastErrMu.Lock()
+		err := e.lastErr
+		e.lastErrMu.Unlock()
+		select {
+		case sig <- pSignal{ok: false, err: err}:
+		default:
+		}
+	}
 	e.llGate = NewGate()
-	e.pSig = make(chan pSignal, 256)
 	e.pState = pIdle
 	e.top, e.mid, e.base, e.clean = nil, nil, nil, nil
 	e.closed, e.storeClosed = false, false
+	e.Coll, e.Store = nil, nil
 	e.controlled = controlled
 	if !controlled {
 		e.mGate.Open()
@@ -341,7 +355,7 @@ func (e *Env) CloseColl() {
 }
 
 func (e *Env) CloseStore() {
-	if e.Store != nil && !e.storeClosed {
+	if e.Store != nil && !e.storeClosed && (e.Coll == nil || e.closed) {
 		e.Store.Close()
 		e.storeClosed = true
 	}
@@ -500,6 +514,12 @@ func (e *Env) roundOK() {
 	if n := len(e.base); n > 0 {
 		e.Persisted = e.base[n-1]
 	}
+	e.lastBase = e.base
+	defer func() {
+		if e.OnRound != nil {
+			e.OnRound()
+		}
+	}()
 	if e.Cfg.CachePersisted {
 		e.clean = e.base
 	} else {
